@@ -646,7 +646,13 @@ def run_C18(ctx):
     ensure_dirs()
     path = os.path.join(TMP, "C18_sched.txt")
     corr.write_schedule_file(path, scheds)
-    recs = run_harness(binary, ["run", path])
+    try:
+        recs = run_harness(binary, ["run", path])
+    except HarnessHung as h:
+        b = corr.hung_broken(h, scheds)
+        recs = h.partial
+        failures.append(dict(signature="schedule-hung", no_shrink=True, what=b.detail, name=(b.schedule or {}).get("name"),
+                             config=(b.schedule or {}).get("cfg"), events=(b.schedule or {}).get("events")))
     events = 0
     for r in recs:
         if r.get("end"):
